@@ -19,6 +19,10 @@ business (decided on the algorithm); here the model is validated
 differentially on every witness (replayed through the real Solver).
 """
 import os
+import re
+import shutil
+import subprocess
+import tempfile
 import time
 from fractions import Fraction
 
@@ -623,6 +627,51 @@ def frac_to_text(fr):
     return repr(fr.numerator / fr.denominator)
 
 
+def _parse_get_value(text):
+    """'((|a| 1) (b (- 2)) (c (/ 1 3)) (d true))' -> {name: bool|Fraction}"""
+    toks = re.findall(r'\|[^|]*\||[()]|[^\s()]+', text)
+    pos = [0]
+
+    def rd():
+        t = toks[pos[0]]
+        pos[0] += 1
+        if t == '(':
+            lst = []
+            while toks[pos[0]] != ')':
+                lst.append(rd())
+            pos[0] += 1
+            return lst
+        return t
+
+    def ev(x):
+        if isinstance(x, list):
+            if x[0] == '-' and len(x) == 2:
+                return -ev(x[1])
+            if x[0] == '/':
+                return Fraction(ev(x[1])) / Fraction(ev(x[2]))
+            raise ValueError(x)
+        if x == 'true':
+            return True
+        if x == 'false':
+            return False
+        return Fraction(x)
+    out = {}
+    if not toks:
+        return out
+    for pair in rd():
+        try:
+            out[pair[0].strip('|')] = ev(pair[1])
+        except (ValueError, IndexError, ZeroDivisionError):
+            pass
+    return out
+
+
+class _Raw(object):
+    """a term already over the relaxed variables"""
+    def __init__(self, t):
+        self.t = t
+
+
 class Lifter(object):
     """Finds concrete inputs for a whole-return condition (one incremental
     solver per requested form set).
@@ -652,15 +701,107 @@ class Lifter(object):
         self.stats = {'queries': 0, 'sat': 0, 'unsat': 0, 'unknown': 0, 'secs': 0.0}
         self.timeout_ms = timeout_ms
         self.retries = 1
+        self.use_cvc5 = os.environ.get('HV_NO_CVC5') != '1'
 
     def rx(self, t):
         return tm.subst(t, self.rmap) if self.rmap else t
 
+    def _cvc5(self, extra):
+        """The same query (z3's SMT-LIB2 dump of it) decided by the cvc5 binary.
+        unsat is taken as the verdict; for sat the input values cvc5 reports are
+        pinned in z3, whose model of the pinned query is returned (so a cvc5
+        model z3 does not accept stays 'unknown')."""
+        exe = shutil.which('cvc5')
+        if not exe:
+            return 'unknown', None
+        t0 = time.time()
+        s2 = z3.Solver()
+        for c in self.rm.constraints + self.rm.input_domains() + list(extra):
+            s2.add(self.z(c))
+        text = s2.to_smt2()
+        decls = re.findall(r'\(declare-fun (\|[^|]*\||\S+) \(\) (\w+)\)', text)
+        ivars = [(n, srt) for n, srt in decls if n.strip('|').startswith('i:')]
+        text = '(set-option :produce-models true)\n(set-logic ALL)\n' + text + '(get-value (%s))\n' % ' '.join(n for n, _ in ivars)
+        fd, path = tempfile.mkstemp(suffix='.smt2', prefix='hv_cvc5_')
+        try:
+            with os.fdopen(fd, 'w') as f:
+                f.write(text)
+            try:
+                p = subprocess.run([exe, '--tlimit=%d' % (2 * self.timeout_ms), path], capture_output=True, text=True, timeout=2 * self.timeout_ms / 1000.0 + 30)
+                out = p.stdout
+            except subprocess.TimeoutExpired:
+                out = ''
+        finally:
+            os.unlink(path)
+        self.stats['cvc5_queries'] = self.stats.get('cvc5_queries', 0) + 1
+        self.stats['cvc5_secs'] = self.stats.get('cvc5_secs', 0.0) + time.time() - t0
+        first = out.split('\n', 1)[0].strip()
+        if '(error' in out or first not in ('sat', 'unsat'):
+            return 'unknown', None
+        if first == 'unsat':
+            self.stats['cvc5_unsat'] = self.stats.get('cvc5_unsat', 0) + 1
+            return 'unsat', None
+        vals = _parse_get_value(out.split('\n', 1)[1])
+        pins = []
+        for n, srt in ivars:
+            nm = n.strip('|')
+            if nm not in vals:
+                continue
+            v = vals[nm]
+            if srt == 'Bool':
+                pins.append(tm.var(nm, 'B') if v else tm.not_(tm.var(nm, 'B')))
+            elif srt == 'Int':
+                pins.append(tm.eq(tm.var(nm, 'I'), tm.I(int(v))))
+            else:
+                pins.append(tm.eq(tm.var(nm, 'R'), tm.R(Fraction(v))))
+        s3 = z3.Solver()
+        s3.set('timeout', self.timeout_ms)
+        for c in self.rm.constraints + self.rm.input_domains() + list(extra) + pins:
+            s3.add(self.z(c))
+        r = str(s3.check())
+        if r == 'sat':
+            self.stats['cvc5_sat'] = self.stats.get('cvc5_sat', 0) + 1
+            return 'sat', s3.model()
+        self.stats['cvc5_model_rejected'] = self.stats.get('cvc5_model_rejected', 0) + 1
+        return 'unknown', None
+
     def z(self, t):
+        if isinstance(t, _Raw):
+            return tm.to_z3(t.t)
         return tm.to_z3(self.rx(t))
 
     def mv(self, model, t):
         return tm.model_value(model, self.rx(t))
+
+    def integral(self, lines):
+        """Partial un-relaxation: the grid counters of the named lines are
+        integers again (they are in the exact model; the Lifter only drops that
+        fact for speed), as extra constraints for one query."""
+        out = []
+        for n in lines:
+            x = self.rmap.get('v:%s#k' % n)
+            if x is not None:
+                out.append(_Raw(tm.eq(tm.to_real(tm.floor(x)), x)))
+        return out
+
+    def cone(self, line, depth=2):
+        """the line and the lines its definition reads, transitively to `depth`"""
+        seen = {line}
+        frontier = [line]
+        for _ in range(depth):
+            nxt = []
+            for n in frontier:
+                for p in self.rm.summ.get(n, ()):
+                    for r in (p.reads or ()):
+                        if not isinstance(r, str):
+                            if r[0] != 'read_line':
+                                continue
+                            r = r[1]
+                        if r not in seen:
+                            seen.add(r)
+                            nxt.append(r)
+            frontier = nxt
+        return sorted(seen)
 
     def query(self, extra, want_inputs=True):
         """extra: list of terms over the model's variables.
@@ -674,6 +815,9 @@ class Lifter(object):
                 s.add(self.z(c))
             r = str(s.check())
             m = s.model() if r == 'sat' else None
+            if r == 'unknown' and self.use_cvc5:
+                # second engine: cvc5 decides many whole-return queries z3 times out on
+                r, m = self._cvc5(list(extra))
             seed = 0
             while r == 'unknown' and seed < self.retries:
                 # z3's incremental state sometimes wanders: retry on a fresh solver / other seed
